@@ -76,6 +76,112 @@ def compact_slots(ctx, g):
            "live rows numbered consecutively; every defined entry of every live row copied with row and image translated" if not bad else bad)
 
 
+def exact_guards(ctx, g):
+    """guards of the coset-table code decided on value tables (an implied-but-stronger or weaker guard is not accepted):
+    get: Some exactly for a stored entry >= 0 (row 0 is a valid image); set: the table is grown until c < len(); compact: the renumbering table starts
+    filled with 0 (the base row's number); the closing pass scans the subgroup generators exactly at row 0, merges exactly on gap == 0 with different
+    ends and then records the change; the backward scan reads letter n - 1 - index, negated"""
+    ctx.clauses.append("value-table guards: get (entry >= 0), set (grown until c < len), compact (fill 0), closing pass (subgroup generators at row 0 only; merge iff gap == 0 && head != tail; change recorded), backward scan index (T4)")
+    me = lambda b: ("param", 1, b.debug.get(1, ""))
+    gb = ctx.body(CT + "::get")
+    somes = {bi for bi, si, s in gb.assigns() if s["place"]["l"] == 0 and not s["place"]["p"] and strip(norm(gb.rv_origin(s["rv"]), g))[1].endswith("Option::Some")}
+    nones = {bi for bi, si, s in gb.assigns() if s["place"]["l"] == 0 and not s["place"]["p"] and strip(norm(gb.rv_origin(s["rv"]), g))[1].endswith("Option::None")}
+    c_ = ("param", 2, gb.debug.get(2, ""))
+    bad = None
+    for ent, rowin, want in ((-1, 1, (False, True)), (0, 1, (True, False)), (5, 1, (True, False)), (5, 0, (False, True))):
+        def val(y, ent=ent, rowin=rowin):
+            if y == c_:
+                return 2 if rowin else 9
+            if is_call(y, CT + "::len"):
+                return 4
+            a = as_index(y)
+            if a and as_index(a[0]):
+                return ent
+            if y[0] == "local" and gb.local_ty(y[1]) == "isize":
+                return ent
+            return None
+        r = reachable_sites(gb, g, somes | nones, val)
+        got = (bool(r & somes), bool(r & nones))
+        if got != want:
+            bad = bad or "for a stored entry %d in a row %s the table: get %s" % (ent, "inside" if rowin else "outside", "answers Some" if got[0] and not want[0] else "does not answer Some" if want[0] and not got[0] else "answers None" if got[1] else "does not answer None")
+    ctx.ob("T4-exact-guards", gb.name, "Some iff c < len && entry >= 0", "ok" if not bad else "violation", "entries -1 / 0 / 5 inside and outside the table give None / Some / Some / None" if not bad else bad)
+    sb = ctx.body(CT + "::set")
+    c_ = ("param", 2, sb.debug.get(2, ""))
+    exits = [atom_norm(a, g) for h, bl in natural_loops(sb) for e_, ats in loop_exit_atoms(sb, h, bl, g) for a in ats]
+    ok = any(a[0] == "rel" and implies(a, ("rel", "Lt", c_, ("call", CT + "::len", (me(sb),)))) for a in exits)
+    ctx.ob("T4-exact-guards", sb.name, "grown until c < len()", "ok" if ok else "violation",
+           "the growth loop is left only with c < len(): row c exists when it is written" if ok else "the growth loop can be left with c == len(): the write to row c is out of bounds (exits: %s)" % [show_atom(a) for a in exits])
+    cp = ctx.body(CT + "::compact")
+    fills = [[strip(norm(cp.origin(x), g)) for x in t["args"]] for bi, t in cp.calls("vec::from_elem")]
+    ok = len(fills) == 1 and eval_int(fills[0][0]) == 0 and is_call(fills[0][1], CT + "::len")
+    ctx.ob("T4-exact-guards", cp.name, "vec![0; len()]", "ok" if ok else "violation",
+           "the renumbering table starts as len() zeros (0 is the number of the base row, which is never assigned one)" if ok else "the renumbering table of compact() is not vec![0; self.len()]: %s" % [[show(x, 1)[:20] for x in f] for f in fills])
+    ct = ctx.body("fpgroups::cosets::coset_table")
+    merges = list(ct.calls(exact=CT + "::merge"))
+    bad = None
+    if len(merges) != 1:
+        bad = "%d merge calls in coset_table" % len(merges)
+    else:
+        mb = merges[0][0]
+        a = [strip(norm(ct.origin(x), g)) for x in merges[0][1]["args"]]
+        sbw = strip(a[1][1]) if a[1][0] == "field" else None
+        if not (sbw is not None and is_call(sbw, "cosets::scan_both_ways") and a[1] == ("field", sbw, "0") and a[2] == ("field", sbw, "1")):
+            bad = "the rows merged are not (head, tail) of the scan"
+        else:
+            gap, head, tail = ("field", sbw, "2"), ("field", sbw, "0"), ("field", sbw, "1")
+            for gv, hv, tv, want in ((0, 3, 4, True), (0, 3, 3, False), (1, 3, 4, False), (2, 3, 4, False)):
+                r = reachable_sites(ct, g, {mb}, lambda y, gv=gv, hv=hv, tv=tv: gv if y == gap else hv if y == head else tv if y == tail else None)
+                if (mb in r) != want:
+                    bad = bad or "with gap = %d, head = %d, tail = %d the closing pass %s" % (gv, hv, tv, "merges" if mb in r else "does not merge")
+            flags = [l for l, nm in ct.debug.items() if ct.local_ty(l) == "bool" and len(ct.all_defs_origins(l)) == 2]
+            okflag = any(any(dbb in ct.fwd(mb) and eval_int(strip(norm(d, g))) == 1 and ct.dominates(mb, dbb) for dbb, d in ct.all_defs_origins(l)) for l in flags)
+            if not bad and not okflag:
+                bad = "a merge in the closing pass is not recorded in the `changed` flag (the pass would stop although the table changed)"
+            # the subgroup generators: exactly at row 0
+            ex = None
+            for l, nm in ct.debug.items():
+                ds = [(dbb, strip(norm(d, g))) for dbb, d in ct.all_defs_origins(l)]
+                if len(ds) == 2 and any(contains(d, lambda y: y == ("param", 3, ct.debug.get(3, ""))) for _, d in ds) and any(d[0] in ("cast", "agg") or contains(d, lambda y: y[0] == "agg" and y[1] == "array" and not y[2]) for _, d in ds):
+                    ex = ds
+            if not bad:
+                if ex is None:
+                    bad = "the closing pass does not choose between the subgroup generators and nothing per row"
+                else:
+                    for dbb, d in ex:
+                        withgens = contains(d, lambda y: y == ("param", 3, ct.debug.get(3, "")))
+                        fa = [atom_norm(x, g) for x in ct.facts_at(dbb)]
+                        rows = [y for x in fa if x[0] == "rel" for y in (strip(x[2]), strip(x[3])) if y[0] == "field"]
+                        for iv in (0, 1, 2):
+                            vals = [eval_atom_env(x, {r_: iv for r_ in rows}) for x in fa if x[0] == "rel"]
+                            vals = [v for v in vals if v is not None]
+                            if all(vals) != ((iv == 0) == withgens) and vals:
+                                bad = bad or "at row %d the closing pass %s the subgroup generators (they fix row 0 and only row 0)" % (iv, "scans" if all(vals) == withgens else "does not scan")
+    ctx.ob("T4-exact-guards", ct.name, "closing pass", "ok" if not bad else "violation", "subgroup generators at row 0 only; merge iff gap == 0 && head != tail, recorded in `changed`" if not bad else bad)
+    si = ctx.body("fpgroups::cosets::scan_inverse")
+    w_ = ("param", 2, si.debug.get(2, ""))
+    gets = [[strip(norm(si.origin(x), g)) for x in t["args"]] for bi, t in si.calls(exact=CT + "::get")]
+    bad = None
+    if len(gets) != 1:
+        bad = "%d table lookups" % len(gets)
+    else:
+        lt = strip(fold_std_ops(gets[0][2]))
+        neg = lt[0] == "unop" and lt[1] == "Neg"
+        ix = as_index(strip(lt[2])) if neg else None
+        if not (ix and ix[0] == w_):
+            bad = "the letter followed backwards is not -w[..]: %s" % show(lt, 1)[:50]
+        else:
+            idx = unov_deep(strip(ix[1]))
+            pay = [y for y in subterms(idx) if isinstance(y, tuple) and y and y[0] == "field" and y[2] == "0" and strip(y[1])[0] == "variant"]
+            lens = [y for y in subterms(idx) if isinstance(y, tuple) and y and y[0] == "call" and y[1].endswith("::len")]
+            for k in range(5):
+                env_ = {y: k for y in pay}
+                env_.update({y: 5 for y in lens})
+                v = eval_term_env(idx, env_)
+                if v != 4 - k:
+                    bad = bad or "for a word of length 5 the backward scan reads position %s at step %d (expected %d)" % (v, k, 4 - k)
+    ctx.ob("T4-exact-guards", si.name, "-w[n - 1 - index]", "ok" if not bad else "violation", "step k of the backward scan follows the inverse of letter n - 1 - k" if not bad else bad)
+
+
 def table_primitives(ctx, g):
     """the primitives every enumeration step is written in.
     all_gens(): every generator and every inverse exactly once, no 0 (evaluated for 3 generators).
@@ -446,3 +552,4 @@ def run(ctx):
     ctx.floor("join/merge sites in scan_and_connect", len(list(sc.calls(exact=CT + "::join"))) + len(list(sc.calls(exact=CT + "::merge"))), 2)
     table_primitives(ctx, g)
     compact_slots(ctx, g)
+    exact_guards(ctx, g)
